@@ -160,8 +160,26 @@ func (eval *Evaluator) BlindRotateCore(a []uint64, acc *rlwe.Ciphertext, BRK Bli
 	}
 
 	// Line 10 (0 in the negative set is 2N)
-	if _, err = eval.evaluateFromDiscreteLogSets(GaloisElement, discreteLogSets, eval.paramsBR.N()<<1, 0, acc, BRK); err != nil {
-		return
+	if set, ok := discreteLogSets[eval.paramsBR.N()<<1]; ok {
+
+		// Applies the pending automorphism of the previous loop
+		if v != 0 {
+			if err = eval.Automorphism(acc, GaloisElement(v), acc); err != nil {
+				return
+			}
+			v = 0
+		}
+
+		for _, j := range set {
+
+			var brk *rgsw.Ciphertext
+			if brk, err = BRK.GetBlindRotationKey(j); err != nil {
+				return
+			}
+
+			// acc = acc * RGSW(X^{s[j]})
+			eval.ExternalProduct(acc, brk, acc)
+		}
 	}
 
 	// Line 12
@@ -268,6 +286,12 @@ func (eval *Evaluator) getDiscreteLogSets(a []uint64) (discreteLogSets map[int][
 		}
 
 		dlog := GaloisGenDiscreteLog[ai]
+
+		// a[i] = -1 = -g^{0}: 0 in the negative set is 2N
+		/* #nosec G115 -- N cannot be negative */
+		if ai == uint64(eval.paramsBR.N()<<1)-1 {
+			dlog = eval.paramsBR.N() << 1
+		}
 
 		if _, ok := discreteLogSets[dlog]; !ok {
 			discreteLogSets[dlog] = []int{i}
